@@ -830,6 +830,8 @@ pub fn type_permuted_twin(b: &Board) -> Option<Board> {
 }
 
 /// Interference probe (see WalkOpts::interfere). Everything is guarded; results are ignored.
+/// Kinds of look-alike: 0 type-permuted twin, 1 other side to move, 2 other step, 3 all owners exchanged,
+/// 4 one piece with the other owner.
 pub fn interfere_with(eng: &GameState, mo: &Model, which: u8) {
     if mo.setup {
         return;
@@ -856,7 +858,45 @@ pub fn interfere_with(eng: &GameState, mo: &Model, which: u8) {
         }
     });
     // the look-alike asked last decides which kind of shortened key would now be stale
-    match which % 3 {
+    match which % 5 {
+        3 | 4 => {
+            // the same squares and piece types with the owners changed: all of them (3) or one piece (4)
+            let mut t = mo.board;
+            let occupied: Vec<u8> = (0..64u8).filter(|&q| t.at(q) != m::EMPTY).collect();
+            if occupied.is_empty() {
+                return;
+            }
+            if which % 5 == 3 {
+                for &q in occupied.iter() {
+                    t.0[q as usize] = m::mk(!m::is_gold(t.at(q)), m::kind(t.at(q)));
+                }
+            } else {
+                let q = occupied[(mo.board.fingerprint() % occupied.len() as u64) as usize];
+                t.0[q as usize] = m::mk(!m::is_gold(t.at(q)), m::kind(t.at(q)));
+            }
+            let _ = guard(|| {
+                if let Ok(o) = engine_from_position(&t, mo.gold_to_move, mo.move_number) {
+                    let _ = o.valid_actions();
+                    let _ = o.valid_actions_no_rep();
+                    let _ = o.is_terminal();
+                    let _ = o.can_pass(true);
+                    let _ = o.transposition_hash();
+                    let _ = o.to_string();
+                    for a in own_actions.iter() {
+                        if let Action::Move(sq, _) = a {
+                            if o.piece_board().piece_type_at_square(sq).is_some() {
+                                let _ = o.trapped_animal_for_action(a);
+                            }
+                        }
+                    }
+                    for a in o.valid_actions_no_rep().iter().take(24) {
+                        let _ = o.trapped_animal_for_action(a);
+                        let _ = o.take_action(a);
+                    }
+                    let _ = eng.has_move(o.piece_board());
+                }
+            });
+        }
         1 => {
             // the same board with the other side to move
             let _ = guard(|| {
@@ -960,7 +1000,7 @@ pub fn walk(
         obs.on_state(&v, st).map_err(|f| wf(f, &trace))?;
         mem.seen.insert(mo.board);
         if opts.interfere && !mo.setup && (fp_combine(aux, i as u64 ^ 0x1f1f) & 3) == 0 {
-            interfere_with(&eng, &mo, [0u8, 0, 1, 2][((fp_combine(aux, i as u64 ^ 0x2e2e) >> 3) & 3) as usize]);
+            interfere_with(&eng, &mo, [0u8, 0, 1, 2, 3, 4, 0, 3][((fp_combine(aux, i as u64 ^ 0x2e2e) >> 3) & 7) as usize]);
             st.bump("states_observed_again_after_interference");
             // observed twice: first the object that was already queried (right after the twin), then a
             // fresh object of the same state (rebuilt through the constructors) whose very first query is
@@ -1135,7 +1175,7 @@ pub fn walk(
             t.fork = Some(VARIANT_INTERFERE);
             WalkFail { fail: f, trace: t, inconclusive: false }
         };
-        for which in 0..3u8 {
+        for which in 0..5u8 {
             interfere_with(&eng, &mo, which);
             let v2 = View::new(&eng, &mo, false);
             obs.on_state(&v2, st).map_err(|f| fail_with(f, &trace))?;
